@@ -548,6 +548,12 @@ func (conn *obfs4Conn) Write(b []byte) (int, error) {
 				// window and will sample the length distribution every time a
 				// write is scheduled.
 				targetLen := conn.lenDist.Sample()
+				if targetLen == 0 {
+					// The distribution may contain 0, which burst padding
+					// treats as "end on a segment boundary".  A zero
+					// length write is not a thing, so send a full segment.
+					targetLen = framing.MaximumSegmentLength
+				}
 				if frameBuf.Len() < targetLen {
 					// There's not enough data buffered for the target write,
 					// so padding must be inserted.
